@@ -295,6 +295,7 @@ type Pool struct {
 	New   func() any
 	items []any
 	m     sync.Mutex
+	reg   bool
 }
 
 func (p *Pool) Get() any {
@@ -316,14 +317,28 @@ func (p *Pool) Put(x any) {
 		return
 	}
 	p.m.Lock()
+	if !p.reg {
+		p.reg = true
+		vs.OnReset(func() { p.items, p.reg = nil, false })
+	}
 	p.items = append(p.items, x)
 	p.m.Unlock()
 }
 
 // Map replaces sync.Map: a plain map behind a (shimmed) mutex, so every operation is a scheduling point.
 type Map struct {
-	mu Mutex
-	m  map[any]any
+	mu  Mutex
+	m   map[any]any
+	reg bool
+}
+
+// fresh allocates the map and arranges for it to be emptied before the next execution.
+func (m *Map) fresh() {
+	m.m = map[any]any{}
+	if !m.reg {
+		m.reg = true
+		vs.OnReset(func() { m.m, m.reg = nil, false })
+	}
 }
 
 func (m *Map) Load(k any) (any, bool) {
@@ -337,7 +352,7 @@ func (m *Map) Store(k, v any) {
 	m.mu.Lock()
 	defer m.mu.Unlock()
 	if m.m == nil {
-		m.m = map[any]any{}
+		m.fresh()
 	}
 	m.m[k] = v
 }
@@ -349,7 +364,7 @@ func (m *Map) LoadOrStore(k, v any) (any, bool) {
 		return old, true
 	}
 	if m.m == nil {
-		m.m = map[any]any{}
+		m.fresh()
 	}
 	m.m[k] = v
 	return v, false
@@ -370,7 +385,7 @@ func (m *Map) Swap(k, v any) (any, bool) {
 	defer m.mu.Unlock()
 	old, ok := m.m[k]
 	if m.m == nil {
-		m.m = map[any]any{}
+		m.fresh()
 	}
 	m.m[k] = v
 	return old, ok
